@@ -129,3 +129,40 @@ Proof.
   - exists v. rewrite load_store, N.eqb_refl. split; [reflexivity|lia].
   - exists p. split; [exact H|lia].
 Qed.
+
+(* ---- stores of distinct keys issued concurrently (one goroutine per vBucket): whatever order they take effect in,
+   the container represents the same function ---- *)
+From Coq Require Import Permutation.
+
+Definition sm_stores {A} (kvs : smap_of A) (m : smap_of A) : smap_of A :=
+  fold_left (fun m kv => sm_store m (fst kv) (snd kv)) kvs m.
+
+Lemma load_stores {A} (kvs : smap_of A) : forall m k, sm_inv kvs ->
+  sm_load (sm_stores kvs m) k = match sm_load kvs k with Some v => Some v | None => sm_load m k end.
+Proof.
+  unfold sm_stores, sm_inv. induction kvs as [|[a b] r IH]; intros m k H; cbn [fold_left map fst snd sm_load]; [reflexivity|].
+  inversion H as [|? ? Hn Hr]; subst. rewrite (IH _ k Hr). rewrite load_store.
+  destruct (N.eqb_spec a k) as [E|E].
+  - subst. rewrite N.eqb_refl. destruct (sm_load r k) eqn:L; [|reflexivity].
+    exfalso. apply Hn. apply keys_load. congruence.
+  - destruct (N.eqb_spec k a) as [E2|E2]; [congruence|reflexivity].
+Qed.
+
+Lemma load_perm {A} (kvs kvs' : smap_of A) k : sm_inv kvs -> Permutation kvs kvs' -> sm_load kvs k = sm_load kvs' k.
+Proof.
+  intros Hi Hp.
+  assert (Hi' : sm_inv kvs') by (unfold sm_inv in *; eapply Permutation_NoDup; [apply Permutation_map; exact Hp|exact Hi]).
+  destruct (sm_load kvs k) as [v|] eqn:L.
+  - apply (in_load kvs k v Hi) in L. symmetry. apply (in_load kvs' k v Hi'). eapply Permutation_in; eassumption.
+  - destruct (sm_load kvs' k) as [v'|] eqn:L'; [|reflexivity].
+    apply (in_load kvs' k v' Hi') in L'. apply Permutation_sym in Hp.
+    apply (Permutation_in _ Hp) in L'. apply (in_load kvs k v' Hi) in L'. congruence.
+Qed.
+
+Lemma stores_commute {A} (kvs kvs' m : smap_of A) k : sm_inv kvs -> Permutation kvs kvs' ->
+  sm_load (sm_stores kvs m) k = sm_load (sm_stores kvs' m) k.
+Proof.
+  intros Hi Hp.
+  assert (Hi' : sm_inv kvs') by (unfold sm_inv in *; eapply Permutation_NoDup; [apply Permutation_map; exact Hp|exact Hi]).
+  rewrite (load_stores kvs m k Hi), (load_stores kvs' m k Hi'), (load_perm kvs kvs' k Hi Hp). reflexivity.
+Qed.
